@@ -652,7 +652,8 @@ def load():
     p = os.path.join(WORK, "info.json")
     if not os.path.exists(p):
         regenerate(force=True)
-    return json.load(open(p))
+    with vlib.Lock("genconsts"):
+        return json.load(open(p))
 
 
 if __name__ == "__main__":
